@@ -357,7 +357,7 @@ def cnt_route(ctx):
                     continue
                 # the receiver may have been selected by an earlier match on the direction: resolve it on this path
                 recv = set(param_path(versionless(x)) for x in rc.arg_terms(bb, 0))
-                dots = param_path(versionless(c.args[1].val))
+                dots = value_path(c.args[1].val)
                 if recv == {(1, (fld,))} and dots and dots[0] == 2 and dots[1][-1:] == ('dot',):
                     good.append(bb)
                 elif recv != {(1, (fld,))}:
@@ -377,7 +377,7 @@ def cnt_route(ctx):
             good = []
             for bb, c in it.calls.items():
                 if is_call(c.term, name, self_adt='GCounter') and param_path(c.args[0].val) == (1, (fld,)):
-                    pa = param_path(c.args[1].val)
+                    pa = value_path(c.args[1].val)
                     if name == 'reset_remove':
                         if pa == (2, ()):
                             good.append(bb)
@@ -403,7 +403,7 @@ def gc_delegate(ctx):
         it = interp(facts, body)
         rc = Reach(facts, body, Evaluator(facts))
         good = [bb for bb, c in it.calls.items() if is_call(c.term, name, self_adt='VClock') and len(c.args) == 2
-                and param_path(c.args[0].val) == (1, ('inner',)) and param_path(c.args[1].val) == want]
+                and param_path(c.args[0].val) == (1, ('inner',)) and value_path(c.args[1].val) == want]
         ctx.check(bool(good) and rc.must_pass(good), name, body, 'inner.%s(%s)' % (name, 'other.inner' if want[1] else 'argument'),
                   'GCounter::%s does not delegate to inner.%s with the right operand on every path' % (name, name), props=props)
 
